@@ -195,7 +195,12 @@ def replay_C10(w, clause):
     else:
         inst = shapes.from_jsonable(w["instance"])
         data = bytearray(_encode(cls, inst))
-        data[w["offset"]] = w["value"]
+        if w["kind"] == "insert":
+            data[w["offset"]:w["offset"]] = bytes([w["value"]])
+        elif w["kind"] == "delete":
+            del data[w["offset"]]
+        else:
+            data[w["offset"]] = w["value"]
         data = bytes(data)
     buf = io.BytesIO(data)
     try:
